@@ -117,6 +117,15 @@ def replay(path, repo):
         for o in rep.get('verifier_output', [])[:3]:
             print(o)
         return 1
+    if (w.get('battery') or [None])[0] == 'kani-leaf':
+        # re-extract the statement from the tree and re-run the harness + the concrete boundary replay
+        import kani_leaf
+        r = kani_leaf.run(repo, os.environ.get('VERIF_SCRATCH', '/var/tmp/walrus-verif-scratch'), w['battery'][1], print)
+        print(json.dumps({k: r.get(k) for k in ('status', 'witness', 'stmt')})[:2000])
+        if r.get('status') == 'failed':
+            print('VIOLATION property=%s replay=%s' % (rep.get('property'), path))
+            return 1
+        return 0 if r.get('status') == 'ok' else 2
     binary = crate_for(repo, print)
     if binary is None:
         return 2
